@@ -231,83 +231,7 @@ def shard_lopsided(desc):
     return res
 
 
-def shard_bigcount(desc):
-    """Sample sizes far beyond what adds can reach, produced by repeated self-merging (a.merge(&a.clone()) doubles the
-    count): 2^16 .. 2^60 observations.  The multiset is known exactly (every base value occurs 2^k times), so the exact
-    oracle still applies: len must be exact and every statistic inside the envelope; further merges between two huge
-    operands with different means and further adds after the huge count are checked too."""
-    rng = random.Random(desc['seed'])
-    res = Result()
-    variant = desc['variant']
-    cases, plan = [], []
-    kk = 0
-    for typ, ka, kb in desc['work']:
-        ma, mb = rng.randint(1, 4), rng.randint(1, 3)
-        base_a = [float(rng.randint(-20, 20)) + rng.choice([0.0, 0.5, 0.25]) for _ in range(ma)]
-        base_b = [float(rng.randint(30, 60)) + rng.choice([0.0, 0.5]) for _ in range(mb)]
-        extras = [rng.choice([-1, 1]) * float(rng.randint(100, 400)), float(rng.randint(-5, 5)), 7.25]
-        c = Case('%s-%d' % (desc['name'], kk), typ, meta={'ka': ka, 'kb': kb, 'base_a': base_a, 'base_b': base_b, 'extras': extras})
-        kk += 1
-        c.op('N', 0)
-        c.op('A', 0, base_a)
-        for _ in range(ka):
-            c.op('M', 0, 0)
-        m1 = c.op('O', 0)
-        c.op('N', 1)
-        c.op('A', 1, base_b)
-        for _ in range(kb):
-            c.op('M', 1, 1)
-        orient = rng.randint(0, 1)
-        if orient == 0:
-            c.op('M', 0, 1)
-            r = 0
-        else:
-            c.op('M', 1, 0)
-            r = 1
-        m2 = c.op('O', r)
-        marks = [(m1, base_a, [2 ** ka] * ma), (m2, base_a + base_b, [2 ** ka] * ma + [2 ** kb] * mb)]
-        vals, cnts = base_a + base_b, [2 ** ka] * ma + [2 ** kb] * mb
-        for x in extras:
-            c.op('A', r, [x])
-            vals, cnts = vals + [x], cnts + [1]
-            marks.append((c.op('O', r), list(vals), list(cnts)))
-        cases.append(c)
-        plan.append((c, typ, marks))
-    logs = run_driver(desc['binary'], ''.join(c.text() for c in cases))
-    for c, typ, marks in plan:
-        recs = logs.get(c.id)
-        if recs is None:
-            res.inconclusive.append('case %s missing' % c.id)
-            continue
-        for r in recs:
-            if r.kind in ('p', 'e', 'd'):
-                res.violation(PROP, '%s:%s' % (typ, 'panic' if r.kind == 'p' else 'harness'),
-                              '%s with 2^%d / 2^%d-fold self-merged operands: op %d (%s) -> %s %s' % (
-                                  typ, c.meta['ka'], c.meta['kb'], r.op, c.ops[r.op][:40], r.kind, r.rest), c, variant)
-        by_op = {r.op: r for r in recs if r.kind == 'o'}
-        for opi, vals, cnts in marks:
-            r = by_op.get(opi)
-            if r is None:
-                continue
-            # merge equal values
-            agg = {}
-            for v_, c_ in zip(vals, cnts):
-                agg[v_] = agg.get(v_, 0) + c_
-            vv = sorted(agg)
-            mo = ex.moments_weighted(vv, [agg[v_] for v_ in vv], 10)
-            nt = mc.judge(PROP, typ, None, r.kv, res, c, variant, only=ONLY[typ], mo=mo,
-                          context='(sample size %d = self-merged 2^%d x %d values%s)' % (
-                              mo.n, c.meta['ka'], len(c.meta['base_a']), ' merged with 2^%d x %d values' % (c.meta['kb'], len(c.meta['base_b'])) if opi != marks[0][0] else ''))
-            res.count('bigcount_states')
-            if mo.n > 2 ** 32:
-                res.count('bigcount_states_above_2^32')
-            if mo.n > 2 ** 53:
-                res.count('bigcount_states_above_2^53')
-            if nt:
-                res.count('bigcount_nontrivial_states')
-        res.count('histories')
-        res.distinct.add(c.key())
-    return res
+from bigcount import shard as shard_bigcount  # noqa: E402
 
 
 def run(tier, seed):
@@ -360,8 +284,8 @@ def run(tier, seed):
             for typ in TYPES:
                 for ka, kb in [(16, 16), (17, 3), (31, 31), (32, 32), (33, 0), (33, 33), (40, 20), (53, 0), (54, 1), (60, 59)]:
                     bc.append((typ, ka, kb))
-            descs = [{'name': 'b%s%d' % (variant[0], s), 'variant': variant, 'binary': binary, 'work': bc[s::nsh],
-                      'seed': seed * 1000003 + s * 17 + sum(map(ord, variant))} for s in range(nsh)]
+            descs = [{'name': 'b%s%d' % (variant[0], s), 'variant': variant, 'binary': binary, 'work': bc[s::nsh], 'prop': PROP,
+                      'only': ONLY, 'seed': seed * 1000003 + s * 17 + sum(map(ord, variant))} for s in range(nsh)]
             total.merge(common.run_shards(shard_bigcount, descs))
     except common.Inconclusive as e:
         total.inconclusive.append(str(e))
